@@ -33,6 +33,7 @@ class SimNet:
         self.conn_count = 0
         self.taps: list = []  # callables(direction_label, conn_id, bytes)
         self.refuse_all = False
+        self.hard_errors: list = []   # names of the threads in which send() raised EPIPE/ECONNRESET
         kernel.net = self
 
     def listener(self, key):
@@ -182,6 +183,8 @@ class SimSocket:
             raise _err(errno.ENOTCONN, "Socket is not connected")
         if self._tx_broken or self._rx_rst:
             k.fault("epipe")
+            net_ = self._net
+            net_.hard_errors.append(k.current.name)
             raise BrokenPipeError(errno.EPIPE, "Broken pipe")
         peer = self._peer
         net = self._net
